@@ -135,6 +135,7 @@ class Engine:
         self.memo = {}
         self.confirmed = {}
         self.fsets = [self.M.field_sets(c, full) for c in self.M.classes]
+        self.fsets_args = [self.M.field_sets(c, full, via_args=True) for c in self.M.classes]
         self.mkops = self.M.mk_ops(full)
         self.nstates = 0
         self.ntrans = 0
@@ -643,7 +644,7 @@ class Engine:
             if a_new:
                 for c in C:
                     yield ("conv", ai, c), ("conv", au, c)
-                    for f in self.fsets[c]:
+                    for f in self.fsets_args[c]:
                         yield ("upd_f", ai, c, f), ("upd_f", au, c, f)
         for xi, xu in NS:
             x_new = (not only_new) or xi == last
